@@ -346,7 +346,7 @@ fn c07_random(case_seed: u64, acc: &mut Acc) {
 pub const META_C08: Meta = Meta {
     id: "C08",
     level: "exploration",
-    rule: "Each case is a program of 6 expression trees (depth 1-6 over all 16 binary and 3 unary operators, ite, literals in every radix, variables bound to boundary values, 64-bit device outputs scripted to 0, +-1, MIN, MAX, 2^k, 63, 64, 65; weights favour same-level non-commutative chains, unary under binary and adjacent precedence levels). Every tree is observed through three public views of its full i64 value: vars() after `let t = expr;`, the expected value of a 64-bit output column and of a virtual-signal column holding `(expr)`. The text is produced from the tree with the C08 precedence table, once with minimal and once with redundant parentheses; both must give the value the reference evaluator computes on the tree (wrapping + - * neg, shifts by count&63 with arithmetic >>, truncating / %, comparisons and ! -> 0/1, lazy ite whose unselected arm may read an output answered Z). Trees dividing by zero are left to C10 (dropped before the run, counted). Shard 0 enumerates all op pairs/triples x shapes on fixed valuations. Non-trivial = tree with >= 3 operators from >= 2 precedence levels or a same-level non-commutative chain; evidence lists how many (parent-op, child-op, side) pairs were exercised.",
+    rule: "Each case is a program of 6 expression trees (depth 1-6 over all 16 binary and 3 unary operators, ite, literals in every radix, variables bound to boundary values, 64-bit device outputs scripted to 0, +-1, MIN, MAX, 2^k, 63, 64, 65; weights favour same-level non-commutative chains, unary under binary and adjacent precedence levels). Every tree is observed through three public views of its full i64 value: vars() after `let t = expr;`, the expected value of a 64-bit output column and of a virtual-signal column holding `(expr)`. The text is produced from the tree with the C08 precedence table, once with minimal and once with redundant parentheses; both must give the value the reference evaluator computes on the tree (wrapping + - * neg, shifts by count&63 with arithmetic >>, truncating / %, comparisons and ! -> 0/1, lazy ite whose unselected arm may read an output answered Z). Trees dividing by zero are left to C10 (dropped before the run, counted). Shard 0 enumerates all op pairs/triples x shapes on fixed valuations. One case in six is made of simplification baits: 30 templates that invite an algebraic rewrite which is wrong at the edges of i64 or drops an evaluation (-a / -b, (a*b)/b, x OP x, a*0, a/-1, a%-1, doubled unary operators, shifts by 0 / 62..65 / 127 / 128 / negative counts, ite with a literal condition, a / 2^k ...) over variables and outputs bound to MIN, MAX, -1, -2, 2, 0, 1, MIN+1, 2^62; 6% of the inner nodes of ordinary trees are baits too. 4% of the baits are runs of 9-70 directly stacked prefix operators. Non-trivial = tree with >= 3 operators from >= 2 precedence levels or a same-level non-commutative chain; evidence lists how many (parent-op, child-op, side) pairs were exercised.",
     assumptions: &["reference evaluator (60 lines, wrapping_* semantics as stated in C08)", "printer inserts parentheses per the C08 table; a printer bug would show as disagreement, not silence"],
     quick_cases: 60000,
     thorough_cases: 1200000,
@@ -417,6 +417,17 @@ impl<'a> EG<'a> {
         ]);
         let md = *self.r.pick(&[BinOp::Mul, BinOp::Div, BinOp::Rem]);
         let pm = *self.r.pick(&[BinOp::Add, BinOp::Sub]);
+        if self.r.chance(40, 1000) {
+            // a long run of directly stacked prefix operators (past 8 / 16 / 32 / 64 of them)
+            // (after seeded change W-C08-agent20-4: operators packed two bits each into a u32)
+            let n = *self.r.pick(&[9usize, 15, 16, 17, 18, 20, 31, 32, 33, 40, 63, 64, 65, 70]);
+            let mut e = a;
+            for _ in 0..n {
+                let u = *self.r.pick(&[UnOp::Neg, UnOp::Not, UnOp::BitNot, UnOp::BitNot]);
+                e = Expr::Un(u, bx(e));
+            }
+            return e;
+        }
         match self.r.below(30) {
             0 | 1 => bin(BinOp::Div, neg(a), neg(b)),
             2 => bin(BinOp::Rem, neg(a), neg(b)),
